@@ -144,7 +144,9 @@ fn case(ctx: &mut Ctx, case_seed: u64) {
     let mut rng = Rng(case_seed);
     let ty = TYPES[rng.usize_below(TYPES.len())];
     let desc = rng.chance(1, 2);
-    let profile = rng.below(4);
+    // probe (inert unless C17_PROBE_MULTI is set): multi-valued sort fields with disjoint ranges
+    let probe_multi = std::env::var("C17_PROBE_MULTI").is_ok();
+    let profile = if probe_multi { 3 } else { rng.below(4) };
     let step: i64 = *rng.pick(&[3i64, 4, 10, -3, -4, -10]);
     let mut base: i64 = 0;
     let case = json!({"case_seed": case_seed.to_string(), "type": ty, "desc": desc});
@@ -197,7 +199,12 @@ fn case(ctx: &mut Ctx, case_seed: u64) {
                 let pr = if profile != 3 && rng.chance(1, 6) { 1 } else { profile };
                 let v = gen_value(&mut rng, ty, pr, base);
                 match &v {
-                    V::U(x) => doc.add_u64(env.sk, *x),
+                    V::U(x) => {
+                        doc.add_u64(env.sk, *x);
+                        if probe_multi && rng.chance(1, 3) {
+                            doc.add_u64(env.sk, *x);
+                        }
+                    }
                     V::I(x) => doc.add_i64(env.sk, *x),
                     V::F(x) => doc.add_f64(env.sk, *x),
                     V::D(x) => doc.add_date(env.sk, DateTime::from_timestamp_secs(*x)),
@@ -246,10 +253,26 @@ fn case(ctx: &mut Ctx, case_seed: u64) {
             ids.truncate(take);
             // live keys of the sources (doc-id order) for the model's k-way merge
             let mut runs: Vec<Vec<K>> = vec![];
+            // sort column of every source as the stack-vs-k-way decision sees it (numeric types)
+            let mut segcols: Vec<(String, Vec<u64>)> = vec![];
             for id in &ids {
                 let seg = env.index.searchable_segments().unwrap().into_iter().find(|s| s.id() == *id).unwrap();
                 let r = SegmentReader::open(&seg).unwrap();
                 let keys = segment_keys(&r, ty).unwrap();
+                if !matches!(ty, "str" | "bytes") && r.num_docs() > 0 {
+                    if let Ok(Some((col, _))) = r.fast_fields().u64_lenient("sk") {
+                        let card = match col.get_cardinality() {
+                            tantivy::columnar::Cardinality::Full => "full",
+                            tantivy::columnar::Cardinality::Optional => "optional",
+                            tantivy::columnar::Cardinality::Multivalued => "multivalued",
+                        };
+                        let ks: Vec<String> = keys.iter().map(|k| match k { K::Num(v) => v.to_string(), _ => "n".to_string() }).collect();
+                        let al: String = (0..r.max_doc()).map(|d| if r.is_deleted(d) { '0' } else { '1' }).collect();
+                        let u = uids_of(&r).unwrap();
+                        let live: Vec<u64> = (0..r.max_doc()).filter(|d| !r.is_deleted(*d)).map(|d| u[d as usize]).collect();
+                        segcols.push((format!("{card};{};{al};{}:{}", ks.join(","), col.min_value(), col.max_value()), live));
+                    }
+                }
                 runs.push((0..r.max_doc()).filter(|d| !r.is_deleted(*d)).map(|d| keys[d as usize].clone()).collect());
             }
             let res = env.writer.merge(&ids).wait();
@@ -276,6 +299,29 @@ fn case(ctx: &mut Ctx, case_seed: u64) {
                             if m != key_tokens(&keys, &all) {
                                 ctx.report.violation("model", "C17:kmerge-keys-differ", format!("key sequence of the merged segment differs from Lean kmerge ({ty} {})", dir_name(desc)), case.clone());
                                 return;
+                            }
+                            // the Lean stack-vs-k-way decision on the real columns: when it says
+                            // "stack", the merged doc order must be the readers stacked in
+                            // min-value order
+                            if !segcols.is_empty() {
+                                let ans = ctx.model.ask(&format!("C17 decision {} {}", dir_name(desc), segcols.iter().map(|s| s.0.clone()).collect::<Vec<_>>().join(" ")));
+                                let parts: Vec<&str> = ans.split('/').collect();
+                                if parts.len() == 3 {
+                                    ctx.report.count(match parts[0] { "1" => "decision:stack", "0" => "decision:k-way", _ => "decision:source-shape-changed" });
+                                    if parts[2] == "1" { ctx.report.count("decision:live-nulls"); }
+                                    if parts[0] == "1" {
+                                        let order = crate::model::parse_nat_list(parts[1]).unwrap_or_default();
+                                        let expect: Vec<u64> = order.iter().flat_map(|i| segcols[*i as usize].1.clone()).collect();
+                                        let real: Vec<u64> = uids_of(&r).unwrap();
+                                        if real != expect {
+                                            ctx.report.violation("model", "C17:stack-decision-differs", format!("Lean stackDecision says the {} readers are stacked in min-value order, but the merged segment's doc order differs ({ty} {})", segcols.len(), dir_name(desc)), case.clone());
+                                            return;
+                                        }
+                                    }
+                                } else {
+                                    ctx.report.violation("model", "C17:decision-bad-answer", format!("model answered {ans}"), case.clone());
+                                    return;
+                                }
                             }
                             let disjoint = runs.windows(2).all(|w| w[0].iter().all(|a| w[1].iter().all(|b| le_dir(desc, a, b))));
                             ctx.report.count(if disjoint { "merge:disjoint-ranges" } else { "merge:overlapping-ranges" });
@@ -316,7 +362,11 @@ fn check_all(ctx: &mut Ctx, env: &mut Env, when: &str, case: &Value, fresh: Opti
         for d in 1..keys.len() {
             if !le_dir(desc, &keys[d - 1], &keys[d]) {
                 let nulls = keys[d - 1] == K::Missing || keys[d] == K::Missing;
-                let key = if nulls { "C17:null-placement" } else { "C17:segment-not-sorted" };
+                let mut key = if nulls { "C17:null-placement" } else { "C17:segment-not-sorted" };
+                if nulls && std::env::var("C17_PROBE_MULTI").is_ok() {
+                    // probe mode only: multi-valued sort column, see KNOWN_FINDINGS.txt
+                    key = "C17:multivalued-sort-column-stacked-with-live-nulls";
+                }
                 ctx.report.violation("oracle", key, format!("{when}: segment {sid} ({ty} {}): doc {} has key {:?} but doc {} has key {:?}", dir_name(desc), d - 1, keys[d - 1], d, keys[d]), case.clone());
                 return false;
             }
@@ -445,7 +495,7 @@ pub fn run(ctx: &mut Ctx) {
         let _ = catch_unwind(AssertUnwindSafe(|| case(ctx, seed)));
         return;
     }
-    for _ in 0..ctx.budget(150, 6000) {
+    for _ in 0..ctx.budget(150, 3500) {
         let s = ctx.rng.next_u64();
         let r = catch_unwind(AssertUnwindSafe(|| case(ctx, s)));
         if let Err(e) = r {
